@@ -163,9 +163,6 @@ struct Case {
 }
 
 impl Case {
-    fn is_control(&self) -> bool {
-        self.rules.iter().all(|r| r.starts_with("conform"))
-    }
     fn label(&self) -> String {
         self.rules.join("+")
     }
